@@ -125,17 +125,67 @@ Fixpoint remove_nth {A} (i : nat) (l : list A) : list A :=
   | h :: t, S i' => h :: remove_nth i' t
   end.
 
-(* Hash.valueIndex, hashtype.go:1419: key -> position; a later entry overwrites an earlier one with an
-   equal key, so the index holds the LAST position of a key *)
-Fixpoint hfind (es : list (pv * pv)) (k : pv) : option nat :=
-  match es with
-  | [] => None
-  | (k', _) :: t =>
-      match hfind t k with
-      | Some i => Some (S i)
-      | None => if keq k' k then Some O else None
-      end
+(* Operations on entry lists, generic in the representation E of an entry (`key` gives the observed key): the
+   pure layer takes E = pv * pv, the slice-level model (Model/CollHeap.v) takes the stored entry values. *)
+Section Keyed.
+  Context {E : Type} (key : E -> pv).
+
+  (* Hash.valueIndex, hashtype.go:1419: key -> position; a later entry overwrites an earlier one with an
+     equal key, so the index holds the LAST position of a key *)
+  Fixpoint hfindG (es : list E) (k : pv) : option nat :=
+    match es with
+    | [] => None
+    | e :: t =>
+        match hfindG t k with
+        | Some i => Some (S i)
+        | None => if keq (key e) k then Some O else None
+        end
+    end.
+
+  (* mergeEntries, hashtype.go:1156: a copy of the receiver's entries; every entry of the operand replaces the
+     entry at the indexed position of its key (index of the RECEIVER), or is appended *)
+  Definition merge_entriesG (hv oh : list E) : list E :=
+    fold_left (fun all e => match hfindG hv (key e) with
+                            | Some i => set_nth i e all
+                            | None => all ++ [e]
+                            end) oh hv.
+
+  (* uniqueEntries, hashtype.go:672 (fix fba5ff4): one entry per key, a later entry replaces the earlier one in place *)
+  Definition put_entryG (es : list E) (e : E) : list E :=
+    match hfindG es (key e) with
+    | Some i => set_nth i e es
+    | None => es ++ [e]
+    end.
+  Definition unique_entriesG (es : list E) : list E := fold_left put_entryG es [].
+
+  (* Hash.Delete, hashtype.go:826 (fix 68749c8): the indexed entry is left out of a new slice *)
+  Definition hash_deleteG (es : list E) (k : pv) : list E :=
+    match hfindG es k with
+    | Some i => remove_nth i es
+    | None => es
+    end.
+
+  (* Hash.DeleteAll, hashtype.go:836 (fix b787052): the indexed positions of all given keys are left out *)
+  Definition doomed_ofG (es : list E) (keys : list pv) : list nat :=
+    flat_map (fun k => match hfindG es k with Some i => [i] | None => [] end) keys.
+
+  (* Array.Unique, arraytype.go:711: the first element of every hash key *)
+  Fixpoint unique_accG (seen : list pv) (l : list E) : list E :=
+    match l with
+    | [] => []
+    | x :: t => if existsb (fun y => keq (key x) y) seen then unique_accG seen t
+                else x :: unique_accG (key x :: seen) t
+    end.
+End Keyed.
+
+Fixpoint remove_positions {A} (doomed : list nat) (i : nat) (l : list A) : list A :=
+  match l with
+  | [] => []
+  | x :: t => if existsb (Nat.eqb i) doomed then remove_positions doomed (S i) t
+              else x :: remove_positions doomed (S i) t
   end.
+
+Definition hfind : list (pv * pv) -> pv -> option nat := hfindG fst.
 
 Definition entry_of (e : pv * pv) : pv := PEntry (fst e) (snd e).
 
@@ -148,21 +198,8 @@ Definition elems (p : pv) : option (list pv) :=
   | _ => None
   end.
 
-(* mergeEntries, hashtype.go:1156: a copy of the receiver's entries; every entry of the operand replaces the
-   entry at the indexed position of its key (index of the RECEIVER), or is appended *)
-Definition merge_entries (hv oh : list (pv * pv)) : list (pv * pv) :=
-  fold_left (fun all e => match hfind hv (fst e) with
-                          | Some i => set_nth i e all
-                          | None => all ++ [e]
-                          end) oh hv.
-
-(* uniqueEntries, hashtype.go:672 (fix fba5ff4): one entry per key, a later entry replaces the earlier one in place *)
-Definition put_entry (es : list (pv * pv)) (e : pv * pv) : list (pv * pv) :=
-  match hfind es (fst e) with
-  | Some i => set_nth i e es
-  | None => es ++ [e]
-  end.
-Definition unique_entries (es : list (pv * pv)) : list (pv * pv) := fold_left put_entry es [].
+Definition merge_entries : list (pv * pv) -> list (pv * pv) -> list (pv * pv) := merge_entriesG fst.
+Definition unique_entries : list (pv * pv) -> list (pv * pv) := unique_entriesG fst.
 
 Fixpoint pairs_flat (l : list pv) : list (pv * pv) :=
   match l with
@@ -210,12 +247,7 @@ Fixpoint kv_list (es : list (pv * pv)) : list pv :=
   | (k, v) :: t => k :: v :: kv_list t
   end.
 
-(* Array.Unique, arraytype.go:711: the first element of every hash key *)
-Fixpoint unique_acc (seen l : list pv) : list pv :=
-  match l with
-  | [] => []
-  | x :: t => if existsb (fun y => keq x y) seen then unique_acc seen t else x :: unique_acc (x :: seen) t
-  end.
+Definition unique_acc : list pv -> list pv -> list pv := unique_accG (fun x => x).
 
 (* sort.Sort with the comparator "both are integers and a < b" on integers / integer keys: equal integers are
    indistinguishable, so the result is the stable insertion sort *)
@@ -233,7 +265,7 @@ Definition chunk {A} (n j : nat) (l : list A) : option (list A) :=
   if Nat.leb (length l) (j * n) then None else Some (firstn n (skipn (j * n) l)).
 
 (* av.elements[:n:n][i:j], arraytype.go:570 / hashtype.go:1190 (fix e557231): the bounds are checked against the length *)
-Definition slice {A} (i j : Z) (l : list A) : option (list A) :=
+Definition zslice {A} (i j : Z) (l : list A) : option (list A) :=
   if (i <? 0) || (j <? i) || (Z.of_nat (length l) <? j) then None
   else Some (firstn (Z.to_nat (j - i)) (skipn (Z.to_nat i) l)).
 
@@ -260,24 +292,9 @@ Definition eval_mapper (pool : list pv) (m : mapper) (v : pv) : pv :=
 
 Definition bad := RErr EBadType.
 
-(* Hash.Delete, hashtype.go:826 (fix 68749c8): the indexed entry is left out of a new slice *)
-Definition hash_delete (es : list (pv * pv)) (k : pv) : list (pv * pv) :=
-  match hfind es k with
-  | Some i => remove_nth i es
-  | None => es
-  end.
-
-(* Hash.DeleteAll, hashtype.go:836 (fix b787052): the indexed positions of all given keys are left out *)
-Fixpoint remove_positions {A} (doomed : list nat) (i : nat) (l : list A) : list A :=
-  match l with
-  | [] => []
-  | x :: t => if existsb (Nat.eqb i) doomed then remove_positions doomed (S i) t
-              else x :: remove_positions doomed (S i) t
-  end.
-Definition doomed_of (es : list (pv * pv)) (keys : list pv) : list nat :=
-  flat_map (fun k => match hfind es k with Some i => [i] | None => [] end) keys.
+Definition hash_delete : list (pv * pv) -> pv -> list (pv * pv) := hash_deleteG fst.
 Definition hash_delete_all (es : list (pv * pv)) (keys : list pv) : list (pv * pv) :=
-  remove_positions (doomed_of es keys) 0 es.
+  remove_positions (doomed_ofG fst es keys) 0 es.
 
 (* the operations that the harness applies to a free HashEntry receiver (harness/collh/ref.go: EntryOps) *)
 Definition entry_op (o : op) : bool :=
@@ -352,7 +369,7 @@ Definition step (pool : list pv) (o : op) : out :=
                            | Some xs => RVal (PArr (l ++ xs))
                            | None => bad
                            end
-          | OSlice _ i j => match slice i j l with Some s => RVal (PArr s) | None => RErr EFault end
+          | OSlice _ i j => match zslice i j l with Some s => RVal (PArr s) | None => RErr EFault end
           | ODelete _ x => RVal (PArr (filter (fun e => negb (veq e (P x))) l))       (* arraytype.go:389 *)
           | ODeleteAll _ x =>
               match elems (P x) with                                       (* arraytype.go:395 *)
@@ -391,7 +408,7 @@ Definition step (pool : list pv) (o : op) : out :=
               | PEntry _ _ => RErr EUnsupported
               | _ => bad
               end
-          | OSlice _ i j => match slice i j es with Some s => RVal (PHash s) | None => RErr EFault end
+          | OSlice _ i j => match zslice i j es with Some s => RVal (PHash s) | None => RErr EFault end
           | ODelete _ x => RVal (PHash (hash_delete es (P x)))
           | ODeleteAll _ x =>
               match elems (P x) with
